@@ -257,7 +257,7 @@ def run_jobs(prop: str, tier: str, jobs: List[Job], scratch: str, workers: int, 
 def replay_file(path: str) -> Tuple[bool, str]:
     """returns (reproduced, detail)"""
     env = dict(os.environ)
-    env['PYTHONPATH'] = VERIF + os.pathsep + env.get('PYTHONPATH', '')
+    env['PYTHONPATH'] = REPO + os.pathsep + VERIF + os.pathsep + env.get('PYTHONPATH', '')
     r = subprocess.run([sys.executable, '-m', 'vf.replay', path], cwd=VERIF, env=env,
                        capture_output=True, text=True, timeout=600)
     last = (r.stdout.strip().splitlines() or [''])[-1]
